@@ -447,6 +447,9 @@ pub fn run(ctx: &mut Ctx) {
     let bound = if thorough { 3 } else { 2 };
     let mut inter = |ctx: &mut Ctx, group: Vec<String>, bound: usize| {
         let j = json!({"kind": "interleaving", "requests": group, "preemption_bound": bound});
+        if ctx.verdict_established(6) {
+            return;
+        }
         if !ctx.begin(j.to_string().as_bytes()) {
             return;
         }
